@@ -203,6 +203,14 @@ def bind_rawnames(programs, dumps):
                 r = inv["raw_of"].get(s.name)
                 if r:
                     s.rawname = r
+                # the type-state builder struct is whatever builder() returns (its name is not part of the property)
+                for it in inv["items"]:
+                    if it["kind"] == "impl" and it["self_ty"] == s.name and it.get("trait") is None:
+                        for m in it["items"]:
+                            if m["kind"] == "fn" and m["name"] == "builder":
+                                mm = re.match(r"(\w+)<", m["ret"])
+                                if mm:
+                                    s.partial = mm.group(1)
     shutil.rmtree(tmp, ignore_errors=True)
 
 
